@@ -3,6 +3,7 @@
 import json, glob, os, re
 V = os.path.dirname(os.path.dirname(os.path.abspath(__file__)))
 rows = []
+ST = json.load(open(os.path.join(V, "tools", "strengthening.json")))
 for d in sorted(glob.glob(os.path.join(V, "seeded", "*"))):
     sid = os.path.basename(d)
     m = json.load(open(os.path.join(d, "meta.json")))
@@ -14,11 +15,12 @@ for d in sorted(glob.glob(os.path.join(V, "seeded", "*"))):
             sig = (v.get("signatures") or [""])[0]
             sig = re.sub(r"^signature: ", "", sig)
             sig = sig.split("  ")[0]
-            caught.append("%s (`%s`)" % (k.split("/")[0], sig[:90]))
+            caught.append("%s (`%s`)" % (k.split("/")[0], sig[:90].replace("|", " · ")))
     summ = (m.get("summary") or "").replace("|", "\\|").replace("\n", " ")
     needs = (m.get("needs") or "").replace("|", "\\|").replace("\n", " ")
     note = " **Note:** " + m["note_after_confirmation"][:300] if m.get("note_after_confirmation") else ""
-    rows.append("| `%s` | %s | %s | %s%s |" % (sid, summ[:260], needs[:260], "; ".join(caught) if caught else "— (see note)", note))
-print("| id | change | needs | caught by (first signature) |")
-print("|---|---|---|---|")
+    first = ("missed; then: " + ST[sid]) if sid in ST else "caught"
+    rows.append("| `%s` | %s | %s | %s%s | %s |" % (sid, summ[:170], needs[:170], "; ".join(caught) if caught else "— (see note)", note, first))
+print("| id | change (abridged; full text in seeded/<id>/meta.json) | needs (abridged) | caught by (first signature) | first evaluation |")
+print("|---|---|---|---|---|")
 print("\n".join(rows))
